@@ -232,6 +232,7 @@ type vfC10NotifEv struct {
 	connected bool
 	peer      peer.ID
 	raddr     string
+	id        string // the swarm's connection id: connections are attributed by identity, never by peer alone
 }
 
 type vfC10Notif struct {
@@ -241,7 +242,7 @@ type vfC10Notif struct {
 
 func (n *vfC10Notif) add(connected bool, c network.Conn) {
 	n.mu.Lock()
-	n.evs = append(n.evs, vfC10NotifEv{connected, c.RemotePeer(), c.RemoteMultiaddr().String()})
+	n.evs = append(n.evs, vfC10NotifEv{connected, c.RemotePeer(), c.RemoteMultiaddr().String(), c.ID()})
 	n.mu.Unlock()
 }
 func (n *vfC10Notif) count(connected bool, p peer.ID, from int) int {
@@ -255,6 +256,30 @@ func (n *vfC10Notif) count(connected bool, p peer.ID, from int) int {
 	}
 	return c
 }
+func (n *vfC10Notif) has(connected bool, id string) bool {
+	n.mu.Lock()
+	defer n.mu.Unlock()
+	for _, e := range n.evs {
+		if e.connected == connected && e.id == id {
+			return true
+		}
+	}
+	return false
+}
+
+// ids of the connections with p announced (Connected) since from
+func (n *vfC10Notif) connectedIDs(p peer.ID, from int) []string {
+	n.mu.Lock()
+	defer n.mu.Unlock()
+	var out []string
+	for _, e := range n.evs[from:] {
+		if e.connected && e.peer == p {
+			out = append(out, e.id)
+		}
+	}
+	return out
+}
+
 func (n *vfC10Notif) mark() int {
 	n.mu.Lock()
 	defer n.mu.Unlock()
@@ -509,6 +534,8 @@ type vfC10Live struct {
 	tdialBlk, tdialCont                 []string
 	auto                                bool // the real pipeline left the model's path: release everything, judge the outcome
 	aborted, remoteStarted, interleaved bool
+	newIDs                              map[string]bool // connections of the gated host with the peer that did not exist when the attempt began
+	preIDs                              []string
 	rawMu                               sync.Mutex
 	remoteRaw                           transport.CapableConn
 	cut                                 bool // the rest of the path needs a cooperating remote we do not have (TCP simultaneous open)
@@ -523,6 +550,7 @@ type vfC10Net struct {
 	res    *vfh.Result
 	ctl    *vfC10StepCtl
 	live   *vfC10Live
+	known  map[string]bool // connection ids of the gated host seen so far
 	stats  map[string]int
 }
 
@@ -550,7 +578,7 @@ func vfC10IPOf(addr string) string {
 }
 
 func vfC10NetSetup() (*vfC10Net, error) {
-	n := &vfC10Net{remote: map[string]*vfC10Host{}, stats: map[string]int{}, ctl: &vfC10StepCtl{events: make(chan *vfC10Event, 64)}}
+	n := &vfC10Net{remote: map[string]*vfC10Host{}, stats: map[string]int{}, known: map[string]bool{}, ctl: &vfC10StepCtl{events: make(chan *vfC10Event, 64)}}
 	res := &vfC10Resolver{names: map[string]string{"p2.vf.test": "127.0.0.2", "p3.vf.test": "127.0.0.3", "p6.vf.test": "::1"}}
 	var err error
 	n.a, err = vfC10NewHost("pa", "127.0.0.1", "::1", func() connmgr.ConnectionGater {
@@ -641,7 +669,7 @@ func (n *vfC10Net) start(s *vfC10Sys, op vfh.Op, form string) error {
 		return fmt.Errorf("no remote %s", op.S("peer"))
 	}
 	l := &vfC10Live{dir: op.S("dir"), peer: op.S("peer"), ip: op.S("ip"), tpt: op.S("tpt"), pre: op.S("pre"), opt: op.S("opt"), form: form, x: x,
-		blk: map[string]bool{}, cont: map[string]bool{}, localRes: make(chan vfC10DialRes, 1), remoteRes: make(chan vfC10DialRes, 1)}
+		blk: map[string]bool{}, cont: map[string]bool{}, newIDs: map[string]bool{}, localRes: make(chan vfC10DialRes, 1), remoteRes: make(chan vfC10DialRes, 1)}
 	fam := "4"
 	if x.ip4 == nil {
 		fam = "6"
@@ -686,6 +714,13 @@ func (n *vfC10Net) start(s *vfC10Sys, op vfh.Op, form string) error {
 		a.sw.Backoff().Clear(x.id)
 	}
 	l.preConns = len(a.sw.ConnsToPeer(x.id))
+	for _, c := range a.sw.ConnsToPeer(x.id) {
+		n.known[c.ID()] = true
+		l.preIDs = append(l.preIDs, c.ID())
+	}
+	for _, id := range a.notif.connectedIDs(x.id, 0) {
+		n.known[id] = true
+	}
 	a.gate.take()
 	x.gate.take()
 	l.am, l.xm = a.notif.mark(), x.notif.mark()
@@ -774,7 +809,19 @@ func (n *vfC10Net) arrive() {
 
 func (n *vfC10Net) newConnOnGated() bool {
 	l := n.live
-	return n.a.notif.count(true, l.x.id, l.am) > 0 || len(n.a.sw.ConnsToPeer(l.x.id)) > l.preConns
+	// a NEW connection = one whose identity was not known when the attempt began (held before, or seen in an
+	// earlier attempt: its notifications may be delivered late)
+	for _, c := range n.a.sw.ConnsToPeer(l.x.id) {
+		if id := c.ID(); !n.known[id] {
+			l.newIDs[id] = true
+		}
+	}
+	for _, id := range n.a.notif.connectedIDs(l.x.id, l.am) {
+		if !n.known[id] {
+			l.newIDs[id] = true
+		}
+	}
+	return len(l.newIDs) > 0
 }
 
 // next waits for the next stop of the gated host; nil if the attempt ended on the real side first
@@ -971,7 +1018,8 @@ func (n *vfC10Net) ending() string {
 }
 
 type vfC10NetOutcome struct {
-	NewConn        bool           `json:"new_conn"`        // the gated host got a connection it did not hold before
+	NewConn        bool           `json:"new_conn"` // the gated host got a connection it did not hold before
+	NewConnIDs     []string       `json:"new_conn_ids,omitempty"`
 	Local          string         `json:"local"`           // what DialPeer/NewStream of the gated host returned
 	Remote         string         `json:"remote"`          // what the remote's DialPeer returned
 	TransportDials int64          `json:"transport_dials"` // Dial calls on the gated host's transports
@@ -1081,6 +1129,7 @@ func (n *vfC10Net) finish(s *vfC10Sys, op vfh.Op) (vfC10NetOutcome, error) {
 	x.sw.ClosePeer(a.id)
 	werr := vfC10WaitFor("both swarms to drop the connection", func() bool {
 		n.releaseAll()
+		n.newConnOnGated() // note the identity of whatever is there before closing it
 		if len(a.sw.ConnsToPeer(x.id)) > 0 || len(x.sw.ConnsToPeer(a.id)) > 0 {
 			a.sw.ClosePeer(x.id)
 			x.sw.ClosePeer(a.id)
@@ -1091,14 +1140,27 @@ func (n *vfC10Net) finish(s *vfC10Sys, op vfh.Op) (vfC10NetOutcome, error) {
 				return false // e.g. a cancelled hole punch that has not left the transport yet
 			}
 		}
+		// quiescence by identity: every connection seen (held before or new) has been announced AND announced gone
+		n.newConnOnGated()
+		for _, ids := range [][]string{l.preIDs, vfC10Keys(l.newIDs)} {
+			for _, id := range ids {
+				if !a.notif.has(true, id) || !a.notif.has(false, id) {
+					return false
+				}
+			}
+		}
 		return a.notif.count(true, x.id, 0) == a.notif.count(false, x.id, 0) && x.notif.count(true, a.id, 0) == x.notif.count(false, a.id, 0)
 	})
 	if werr != nil {
 		return out, fmt.Errorf("%s: %v", n.desc(), werr)
 	}
-	if a.notif.count(true, x.id, l.am) > 0 {
+	if n.newConnOnGated() {
 		out.NewConn = true
 	}
+	for id := range l.newIDs {
+		n.known[id] = true
+	}
+	out.NewConnIDs = vfC10Keys(l.newIDs)
 	if l.tpt == "rtc" && l.dir == "in" && !out.NewConn {
 		// a refused WebRTC remote goes on sending connectivity checks for a moment: let them die down (machinery)
 		last, quiet := len(a.gate.peek()), 0
@@ -1233,6 +1295,15 @@ func (n *vfC10Net) finish(s *vfC10Sys, op vfh.Op) (vfC10NetOutcome, error) {
 		}
 	}
 	return out, nil
+}
+
+func vfC10Keys(m map[string]bool) []string {
+	out := make([]string, 0, len(m))
+	for k := range m {
+		out = append(out, k)
+	}
+	sort.Strings(out)
+	return out
 }
 
 func vfC10Has(l []string, x string) bool {
